@@ -225,8 +225,11 @@ fn wait_turn(me: usize) {
             return;
         }
         if g.stuck {
-            // scenario is dead: park forever (the harness process exits)
+            // scenario is dead: the submitter unwinds back to the harness, workers park forever
             drop(g);
+            if me == 0 {
+                panic!("verif_sched: stuck (no runnable thread)");
+            }
             loop {
                 std::thread::sleep(Duration::from_millis(1000));
             }
@@ -372,6 +375,9 @@ impl Condvar {
             if g.stuck {
                 drop(g);
                 drop(guard);
+                if me == 0 {
+                    panic!("verif_sched: stuck (no runnable thread)");
+                }
                 loop {
                     std::thread::sleep(Duration::from_millis(1000));
                 }
